@@ -32,6 +32,9 @@ def alphabet():
     ops.append(('subscribe', 1, (2,), 0, '', ('NF', 'snf')))
     ops.append(('subscribe', 0, (2,), None, '', 'h0'))
     ops.append(('subscribe', 0, (2, 1), 0, '', 's2'))
+    # factories whose product is falsy but not None (an adapter with __len__ == 0): only None means "no adapter / no subscriber"
+    ops.append(('subscribe', 0, (2,), 0, '', ('FF', 'sff')))
+    ops.append(('register', 1, (2,), 1, '', ('FF', 'aff')))
     return ops
 
 
@@ -325,7 +328,7 @@ _ENC = ['zope.interface.adapter:LookupBaseFallback.lookup', 'zope.interface.adap
         'zope.interface.adapter:AdapterLookupBase.subscribers', 'zope.interface.adapter:_lookupAll',
         'zope.interface._zope_interface_coptimizations:LookupBase', 'zope.interface._zope_interface_coptimizations:VerifyingBase']
 
-_B = ('2-registry chain; every set of <=%s registrations/subscriptions from 26 (arity 0-2, names, None as required, class declaration keys, '
+_B = ('2-registry chain; every set of <=%s registrations/subscriptions from 28 (factories whose product is falsy but not None included; arity 0-2, names, None as required, class declaration keys, '
       'factories returning None, subscription adapters, a handler) x every ordered pair of warm-up entry points (9 x 9: none, lookup with '
       'and without default, lookup1, adapter_hook, queryAdapter, queryMultiAdapter, lookupAll, subscriptions); keys: 4 objects + a super '
       'proxy x 2 provided x 2 names from both registries, object pairs, arity 0; non-string names 42 / None / b"n" cold and warm')
